@@ -371,4 +371,164 @@ theorem Rounding.le_iff {rnd : Rat → Rat} (h : Rounding rnd) (A B : Rat) :
 theorem minAbs_eq_min (xd yd : Int) : minAbs xd yd = min (xd : Rat).abs (yd : Rat).abs := by
   unfold minAbs; grind
 
+/-! ## Fixed points: the values of `rne64` are the binary64 numbers -/
+
+theorem pow2_lt (a b : Int) (h : a < b) : pow2 a < pow2 b := by
+  have h1 : pow2 (a + 1) ≤ pow2 b := pow2_mono _ _ (by omega)
+  have h2 : pow2 (a + 1) = pow2 a * 2 := pow2_succ a
+  have h3 := pow2_pos a
+  grind
+
+/-- `ilog2` is determined by the binade. -/
+theorem ilog2_unique (r : Rat) (e : Int) (hr : 0 < r) (h1 : pow2 e ≤ r) (h2 : r < pow2 (e + 1)) : ilog2 r = e := by
+  have s := ilog2_spec r hr
+  by_cases hlt : ilog2 r < e
+  · have := pow2_mono (ilog2 r + 1) e (by omega)
+    grind
+  · by_cases hgt : e < ilog2 r
+    · have := pow2_mono (e + 1) (ilog2 r) (by omega)
+      grind
+    · omega
+
+/-- An integer multiple `n·2^(E-52)` with `2^52 ≤ n < 2^53` in a binade `E ≥ -1022` is a fixed point. -/
+theorem rne64_fix_normal (n : Int) (E : Int) (hE : -1022 ≤ E) (h1 : 2 ^ 52 ≤ n) (h2 : n < 2 ^ 53) :
+    rne64 ((n : Rat) * pow2 (E - 52)) = (n : Rat) * pow2 (E - 52) := by
+  have hu := pow2_pos (E - 52)
+  have hn : (0 : Rat) < (n : Rat) := by
+    have : (0 : Int) < n := by omega
+    exact Rat.intCast_lt_intCast.mpr this
+  have hr : 0 < (n : Rat) * pow2 (E - 52) := Rat.mul_pos hn hu
+  have h52 : pow2 52 = ((2 ^ 52 : Int) : Rat) := by decide +kernel
+  have h53 : pow2 53 = ((2 ^ 53 : Int) : Rat) := by decide +kernel
+  have lo : pow2 E ≤ (n : Rat) * pow2 (E - 52) := by
+    have e : pow2 E = pow2 52 * pow2 (E - 52) := by rw [← pow2_add]; congr 1; omega
+    rw [e, h52]
+    exact Rat.mul_le_mul_of_nonneg_right (Rat.intCast_le_intCast.mpr h1) (Rat.le_of_lt hu)
+  have hi : (n : Rat) * pow2 (E - 52) < pow2 (E + 1) := by
+    have e : pow2 (E + 1) = pow2 53 * pow2 (E - 52) := by rw [← pow2_add]; congr 1; omega
+    rw [e, h53]
+    exact Rat.mul_lt_mul_of_pos_right (Rat.intCast_lt_intCast.mpr h2) hu
+  have hl := ilog2_unique _ E hr lo hi
+  rw [rne64_pos_eq _ hr]
+  have hexp : expOf ((n : Rat) * pow2 (E - 52)) = E := by unfold expOf; rw [hl]; omega
+  rw [hexp]
+  have hdiv : (n : Rat) * pow2 (E - 52) / pow2 (E - 52) = (n : Rat) := Rat.mul_div_cancel (by grind)
+  rw [hdiv, rneInt_intCast]
+
+
+/-- A subnormal multiple `n·2^-1074`, `0 < n < 2^52`, is a fixed point. -/
+theorem rne64_fix_subnormal (n : Int) (h1 : 0 < n) (h2 : n < 2 ^ 52) :
+    rne64 ((n : Rat) * pow2 (-1022 - 52)) = (n : Rat) * pow2 (-1022 - 52) := by
+  have hu := pow2_pos (-1022 - 52)
+  have hn : (0 : Rat) < (n : Rat) := Rat.intCast_lt_intCast.mpr h1
+  have hr : 0 < (n : Rat) * pow2 (-1022 - 52) := Rat.mul_pos hn hu
+  have h52 : pow2 52 = ((2 ^ 52 : Int) : Rat) := by decide +kernel
+  have hi : (n : Rat) * pow2 (-1022 - 52) < pow2 (-1022) := by
+    have e : pow2 (-1022) = pow2 52 * pow2 (-1022 - 52) := by rw [← pow2_add]; congr 1
+    rw [e, h52]
+    exact Rat.mul_lt_mul_of_pos_right (Rat.intCast_lt_intCast.mpr h2) hu
+  have hl : ilog2 ((n : Rat) * pow2 (-1022 - 52)) < -1022 := by
+    have s := (ilog2_spec _ hr).1
+    by_cases h : ilog2 ((n : Rat) * pow2 (-1022 - 52)) < -1022
+    · exact h
+    · have := pow2_mono (-1022) (ilog2 ((n : Rat) * pow2 (-1022 - 52))) (by omega)
+      grind
+  rw [rne64_pos_eq _ hr]
+  have hexp : expOf ((n : Rat) * pow2 (-1022 - 52)) = -1022 := by unfold expOf; omega
+  rw [hexp]
+  have hdiv : (n : Rat) * pow2 (-1022 - 52) / pow2 (-1022 - 52) = (n : Rat) := Rat.mul_div_cancel (by grind)
+  rw [hdiv, rneInt_intCast]
+
+/-- The significand `rne64` produces: at most 2^53, at least 2^52 in the normal range, at most 2^52 below it. -/
+theorem rne64_significand (a : Rat) (ha : 0 < a) :
+    0 ≤ rneInt (a / pow2 (expOf a - 52)) ∧ rneInt (a / pow2 (expOf a - 52)) ≤ 2 ^ 53 ∧
+    (-1022 ≤ ilog2 a → 2 ^ 52 ≤ rneInt (a / pow2 (expOf a - 52))) ∧
+    (ilog2 a < -1022 → rneInt (a / pow2 (expOf a - 52)) ≤ 2 ^ 52) := by
+  have hu := pow2_pos (expOf a - 52)
+  have sa := ilog2_spec a ha
+  have h52 : pow2 52 = ((2 ^ 52 : Int) : Rat) := by decide +kernel
+  have h53 : pow2 53 = ((2 ^ 53 : Int) : Rat) := by decide +kernel
+  refine ⟨rneInt_nonneg _ (div_nonneg' a _ (Rat.le_of_lt ha) hu), ?_, ?_, ?_⟩
+  · have hE : pow2 (ilog2 a + 1) ≤ pow2 (expOf a + 1) := pow2_mono _ _ (by unfold expOf; omega)
+    have hsplit : pow2 (expOf a + 1) = pow2 53 * pow2 (expOf a - 52) := by
+      rw [← pow2_add]; congr 1; omega
+    have hk : a / pow2 (expOf a - 52) ≤ ((2 ^ 53 : Int) : Rat) := by
+      rw [← h53]
+      apply Rat.le_of_mul_le_mul_right (c := pow2 (expOf a - 52)) _ hu
+      rw [div_mul_self _ _ hu, ← hsplit]
+      grind
+    have := rneInt_mono _ _ hk
+    rw [rneInt_intCast] at this
+    exact this
+  · intro hn
+    have hEe : expOf a = ilog2 a := by unfold expOf; omega
+    have hsplit : pow2 (expOf a) = pow2 52 * pow2 (expOf a - 52) := by
+      rw [← pow2_add]; congr 1; omega
+    have hk : ((2 ^ 52 : Int) : Rat) ≤ a / pow2 (expOf a - 52) := by
+      rw [← h52]
+      apply Rat.le_of_mul_le_mul_right (c := pow2 (expOf a - 52)) _ hu
+      rw [div_mul_self _ _ hu, ← hsplit, hEe]
+      exact sa.1
+    have := rneInt_mono _ _ hk
+    rw [rneInt_intCast] at this
+    exact this
+  · intro hs
+    have hEe : expOf a = -1022 := by unfold expOf; omega
+    have hlt : pow2 (ilog2 a + 1) ≤ pow2 (-1022) := pow2_mono _ _ (by omega)
+    have hsplit : pow2 (-1022) = pow2 52 * pow2 (expOf a - 52) := by
+      rw [← pow2_add]; congr 1; omega
+    have hk : a / pow2 (expOf a - 52) ≤ ((2 ^ 52 : Int) : Rat) := by
+      rw [← h52]
+      apply Rat.le_of_mul_le_mul_right (c := pow2 (expOf a - 52)) _ hu
+      rw [div_mul_self _ _ hu, ← hsplit]
+      grind
+    have := rneInt_mono _ _ hk
+    rw [rneInt_intCast] at this
+    exact this
+
+theorem rne64_idem_pos (a : Rat) (ha : 0 < a) : rne64 (rne64 a) = rne64 a := by
+  obtain ⟨h0, h53, hnorm, hsub⟩ := rne64_significand a ha
+  rw [rne64_pos_eq a ha]
+  generalize hn : rneInt (a / pow2 (expOf a - 52)) = n at *
+  by_cases hnormal : -1022 ≤ ilog2 a
+  · have hE : -1022 ≤ expOf a := by unfold expOf; omega
+    have hlo := hnorm hnormal
+    by_cases htop : n = 2 ^ 53
+    · -- carry into the next binade: 2^53 · 2^(E-52) = 2^52 · 2^(E+1-52)
+      have e : (n : Rat) * pow2 (expOf a - 52) = ((2 ^ 52 : Int) : Rat) * pow2 (expOf a + 1 - 52) := by
+        have e1 : pow2 (expOf a + 1 - 52) = pow2 (expOf a - 52) * 2 := by
+          have : expOf a + 1 - 52 = expOf a - 52 + 1 := by omega
+          rw [this, pow2_succ]
+        rw [htop, e1]
+        have : ((2 ^ 53 : Int) : Rat) = ((2 ^ 52 : Int) : Rat) * 2 := by decide +kernel
+        rw [this]
+        grind
+      rw [e]
+      exact rne64_fix_normal (2 ^ 52) (expOf a + 1) (by omega) (by decide) (by decide)
+    · exact rne64_fix_normal n (expOf a) hE hlo (by omega)
+  · have hs : ilog2 a < -1022 := by omega
+    have hEe : expOf a = -1022 := by unfold expOf; omega
+    have hhi := hsub hs
+    rw [hEe]
+    by_cases hz : n = 0
+    · subst hz
+      have : ((0 : Int) : Rat) * pow2 (-1022 - 52) = 0 := by simp
+      rw [this]
+      simp [rne64]
+    · by_cases htop : n = 2 ^ 52
+      · subst htop
+        exact rne64_fix_normal (2 ^ 52) (-1022) (by omega) (by decide) (by decide)
+      · exact rne64_fix_subnormal n (by omega) (by omega)
+
+/-- `rne64` is idempotent: its values are exactly its fixed points (the binary64 numbers, exponent unbounded). -/
+theorem rne64_idem (q : Rat) : rne64 (rne64 q) = rne64 q := by
+  by_cases hp : 0 < q
+  · exact rne64_idem_pos q hp
+  · by_cases hz : q = 0
+    · subst hz; simp [rne64]
+    · have hn : 0 < -q := by grind
+      have := rne64_idem_pos (-q) hn
+      rw [rne64_odd, rne64_odd] at this
+      grind
+
 end ScVerif.C16
